@@ -202,6 +202,7 @@ pub fn run(run: &Run) {
         if f.name == "han" {
             vals.extend(u::han_collide_values());
         }
+        vals.extend(u::float_family());
         run.count(&format!("values_{}", f.name), vals.len() as u64);
         // distinct canonical, non-atom
         let distinct: std::collections::HashSet<CV> = vals
